@@ -26,7 +26,8 @@ impl Prop for C02 {
     }
     fn strategy(&self, _tier: Tier) -> BoxedStrategy<ModelCase> {
         prop_oneof![
-            6 => model_case(PARAMS),
+            3 => model_case(PARAMS),
+            4 => crate::gen::model::model_case_biased(PARAMS),
             2 => model_case(ModelParams { max_vars: 2, max_cons: 2, depth: 4, ..PARAMS }),
             1 => model_case(ModelParams { inexact: true, ..PARAMS }),
             2 => model_case(ModelParams { unbounded_decl: true, ..PARAMS }),
